@@ -47,6 +47,7 @@ type knownFinding struct {
 	Harness  string `json:"harness"` // regexp
 	Label    string `json:"label"`   // regexp on label/msg
 	Witness  string `json:"witness"` // regexp on choices string (optional)
+	Model    string `json:"witness_model"` // regexp on "sym=value sym=value ..." (sorted), optional
 	Commit   string `json:"commit,omitempty"`
 	What     string `json:"what"`
 }
@@ -55,6 +56,9 @@ const verifDir = "/verif"
 
 func loadKnown() []knownFinding {
 	var out []knownFinding
+	if os.Getenv("VERIF_IGNORE_KNOWN") == "1" {
+		return nil
+	}
 	data, err := os.ReadFile(filepath.Join(verifDir, "known_findings.json"))
 	if err != nil {
 		return nil
@@ -82,6 +86,16 @@ func matchKnown(kf []knownFinding, prop string, v sx.Violation) *knownFinding {
 		}
 		if k.Witness != "" {
 			if ok, _ := regexp.MatchString(k.Witness, strings.Join(v.Choices, " ")); !ok {
+				continue
+			}
+		}
+		if k.Model != "" {
+			var kv []string
+			for n, val := range v.Model {
+				kv = append(kv, fmt.Sprintf("%s=%d", n, val))
+			}
+			sort.Strings(kv)
+			if ok, _ := regexp.MatchString(k.Model, strings.Join(kv, " ")); !ok {
 				continue
 			}
 		}
